@@ -158,6 +158,35 @@ func cursorFactsOf(g *GC, nstores int) cursorFacts {
 		if a.Op == "!" && isRangePred(a.Args[0], nstores) {
 			f.newOut = true
 		}
+		// equalities written with offsets (`index+1 == size` for `index == size-1`)
+		if a.Op == "==" && len(a.Args) == 2 {
+			var ev func(t *Term) lin
+			ev = func(t *Term) lin {
+				if k, ok := t.constInt(); ok {
+					return linConst(int(k))
+				}
+				switch {
+				case isSize(t):
+					return linAtom("S")
+				case isIndexLoad(t, nstores):
+					return linAtom("N")
+				case t.Op == "+" && len(t.Args) == 2:
+					return ev(t.Args[0]).add(ev(t.Args[1]), 1)
+				case t.Op == "-" && len(t.Args) == 2:
+					return ev(t.Args[0]).add(ev(t.Args[1]), -1)
+				}
+				return linAtom(noEpoch(t))
+			}
+			form := ev(a.Args[0]).add(ev(a.Args[1]), -1)
+			neg := linConst(0).add(form, -1)
+			last := linAtom("N").add(linAtom("S"), -1).add(linConst(1), 1) // N - S + 1 = 0
+			if form.String() == last.String() || neg.String() == last.String() {
+				f.newEqLast = true
+			}
+			if form.String() == linAtom("N").String() || neg.String() == linAtom("N").String() {
+				f.newEq0, f.newGe0 = true, true
+			}
+		}
 		// the same facts written with offsets (`index > size-1`, `index+1 <= size`, …): compare as linear forms "… <= 0"
 		if (a.Op == "<" || a.Op == "<=") && len(a.Args) == 2 {
 			var ev func(t *Term) lin
@@ -284,10 +313,16 @@ func ruleR14(c *Ctx) *RuleResult {
 					g.Exit.Op == "return" && len(g.Exit.Args) == 1 && g.Exit.Args[0].Op == "res" && g.Exit.Args[0].Args[0].String() == g.Effects[1].String() &&
 					strings.HasPrefix(g.Effects[0].Leaf, p.RelPkg(it.Obj().Pkg().Path())+".(*"+it.Obj().Name()+")")
 			}
+			facts := pr[0] + " ≡ " + pr[1] + ";" + pr[2]
 			if !ok {
-				bad = append(bad, fmt.Sprintf("%s() is not %s(); return %s() on the same iterator", pr[0], pr[1], pr[2]))
+				// not written as the composition: decide the equivalence by symbolic evaluation of both sides
+				if eq, why := firstIsComposition(c, it, fn, ms[pr[1]], ms[pr[2]], ownerF, ownerT); eq {
+					facts += " (not written as that composition; both sides evaluated symbolically from an arbitrary iterator state, for every size: same final fields, same calls, same result)"
+				} else {
+					bad = append(bad, fmt.Sprintf("%s() is not %s(); return %s() on the same iterator, and evaluating both sides does not show them equal (%s)", pr[0], pr[1], pr[2], why))
+				}
 			}
-			add("R14first", tk+"."+pr[0], clFirst, p.FuncPos(fn), bad, pr[0]+" ≡ "+pr[1]+";"+pr[2])
+			add("R14first", tk+"."+pr[0], clFirst, p.FuncPos(fn), bad, facts)
 		}
 		for _, name := range []string{"NextTo", "PrevTo"} {
 			if fn := ms[name]; fn != nil {
